@@ -118,10 +118,12 @@ End SeqSet.
 
 (* ------------------------------------------------------------------ (B) db.seq through the journal replay *)
 Section SeqMono.
+  (* side condition on the key constants (keyMaxSeq = 2^56-1), re-proved for the generated constants on every run *)
   Variable jcrc : bytes -> N.
   Variable jp : Journal.jparams.
   Variable rp : SR.rparams.
   Variable kp : kparams.
+  Hypothesis kpok : kparams_ok kp.
   Variable bhl : N.
   Variable mp : MemDB.mparams.
   Variable tp : tparams.
@@ -134,20 +136,19 @@ Section SeqMono.
 
   Definition nowrap (l : list (N * N)) : Prop := forall x, In x l -> fst x + snd x < 2 ^ 64.
 
-  (* b continues a: more batches applied, and db.seq did not decrease unless one of them wrapped *)
+  (* b continues a: more batches applied, none of which makes "batchSeq + uint64(batchLen)" wrap (decodeBatchToMem
+     accepts a header only if first seq + count <= keyMaxSeq), and db.seq did not decrease *)
   Definition ext (a b : rj) : Prop :=
-    exists l, r_kept b = r_kept a ++ l /\ (nowrap l -> r_seq a <= r_seq b).
+    exists l, r_kept b = r_kept a ++ l /\ nowrap l /\ r_seq a <= r_seq b.
 
   Lemma ext_refl a : ext a a.
-  Proof. exists []. split; [symmetry; apply app_nil_r | intros _; lia]. Qed.
+  Proof. exists []. split; [symmetry; apply app_nil_r | split; [intros x []|lia]]. Qed.
   Lemma ext_same a b : r_seq b = r_seq a -> r_kept b = r_kept a -> ext a b.
-  Proof. intros S K. exists []. split; [rewrite K; symmetry; apply app_nil_r | intros _; lia]. Qed.
+  Proof. intros S K. exists []. split; [rewrite K; symmetry; apply app_nil_r | split; [intros x []|lia]]. Qed.
   Lemma ext_trans a b d : ext a b -> ext b d -> ext a d.
   Proof.
-    intros (l1 & K1 & S1) (l2 & K2 & S2). exists (l1 ++ l2). split; [rewrite K2, K1; symmetry; apply app_assoc|].
-    intros Hn. assert (N1 : nowrap l1) by (intros x Hx; apply Hn, in_or_app; left; exact Hx).
-    assert (N2 : nowrap l2) by (intros x Hx; apply Hn, in_or_app; right; exact Hx).
-    specialize (S1 N1). specialize (S2 N2). lia.
+    intros (l1 & K1 & N1 & S1) (l2 & K2 & N2 & S2). exists (l1 ++ l2). split; [rewrite K2, K1; symmetry; apply app_assoc|].
+    split; [|lia]. intros x Hx. apply in_app_or in Hx as [Hx|Hx]; [apply N1|apply N2]; exact Hx.
   Qed.
   Lemma ext_left a a' b : r_seq a' = r_seq a -> r_kept a' = r_kept a -> ext a' b -> ext a b.
   Proof. intros S K H. eapply ext_trans; [apply (ext_same a a' S K) | exact H]. Qed.
@@ -157,8 +158,26 @@ Section SeqMono.
   Proof.
     unfold BT.decode_to_mem. destruct (BT.decode_header _) as [x|[s b]]; [discriminate|].
     destruct (s <? e) eqn:El; [discriminate|]. apply N.ltb_ge in El.
+    destruct ((keyMaxSeq kp <? s) || (keyMaxSeq kp - s <? b)); [discriminate|].
     destruct (BT.decode_loop _ _ _ _ _ _) as [st|x st| |]; try discriminate.
     destruct (BT.tm_n st =? Z.of_N b)%Z; [|discriminate]. intros E. injection E as <- _ _ _. exact El.
+  Qed.
+
+  Lemma decode_to_mem_rng data e d hs sq bl d' hs' :
+    BT.decode_to_mem kp bhl (ibc c) mp data e d hs = BT.TmOk sq bl d' hs' -> sq + bl <= keyMaxSeq kp.
+  Proof.
+    unfold BT.decode_to_mem. destruct (BT.decode_header _) as [x|[s b]]; [discriminate|].
+    destruct (s <? e); [discriminate|].
+    destruct ((keyMaxSeq kp <? s) || (keyMaxSeq kp - s <? b)) eqn:Er; [discriminate|].
+    destruct (BT.decode_loop _ _ _ _ _ _) as [st|x st| |]; try discriminate.
+    destruct (BT.tm_n st =? Z.of_N b)%Z; [|discriminate]. intros E. injection E as <- <- _ _.
+    apply Bool.orb_false_iff in Er as [E1 E2]. apply N.ltb_ge in E1. apply N.ltb_ge in E2. lia.
+  Qed.
+
+  Lemma key_max_lt : keyMaxSeq kp < 2 ^ 64.
+  Proof.
+    destruct kpok as (_ & _ & _ & _ & Hm & _). rewrite Hm. change (2 ^ 56) with 72057594037927936.
+    change (2 ^ 64) with 18446744073709551616. lia.
   Qed.
 
   Local Notation rrec := (replay_record rp kp bhl mp tp tcrc compress snappy fgen blockSize ri c).
@@ -182,12 +201,15 @@ Section SeqMono.
     unfold replay_record.
     destruct (BT.decode_to_mem kp bhl (ibc c) mp data (r_seq st) (r_mdb st) (r_hts st)) as [sq bl d hts|e d hts| |] eqn:Ed;
       try discriminate.
-    - apply decode_to_mem_seq in Ed.
+    - pose proof (decode_to_mem_rng _ _ _ _ _ _ _ _ Ed) as Hr.
+      apply decode_to_mem_seq in Ed. pose proof key_max_lt as Hk.
       set (st1 := mkRJ _ _ _ _ _ _).
+      assert (W : sq + bl < 2 ^ 64) by lia.
       assert (X : ext st st1).
-      { exists [(sq, bl)]. split; [reflexivity|]. intros Hn. unfold st1. cbn [r_seq].
-        assert (W : sq + bl < 2 ^ 64) by (apply (Hn (sq, bl)); left; reflexivity).
-        unfold BT.u64. change 18446744073709551616 with (2 ^ 64). rewrite N.mod_small by exact W. lia. }
+      { exists [(sq, bl)]. split; [reflexivity|]. split.
+        - intros x [<-|[]]. exact W.
+        - unfold st1. cbn [r_seq]. unfold BT.u64. change 18446744073709551616 with (2 ^ 64).
+          rewrite N.mod_small by exact W. lia. }
       destruct (flush && (oo_wbuf o <=? MemDB.mdb_size d)%Z).
       + destruct (flushm st1) as [st2|e2] eqn:Ef; cbn [obind]; [|discriminate].
         destruct (MemDB.mdb_reset mp (r_mdb st2)) as [d0| |]; cbn [of_mres obind]; try discriminate.
@@ -244,7 +266,7 @@ Section SeqMono.
   (* openDB read-write: db.seq starts at the session's sequence number and does not decrease *)
   Theorem open_rw_seq o hts cs r :
     open_rw jcrc jp rp kp bhl mp tp tcrc compress snappy fgen blockSize ri c o hts cs = OOk r ->
-    nowrap (os_kept r) -> s_seq (c_sess cs) <= os_seq r.
+    nowrap (os_kept r) /\ s_seq (c_sess cs) <= os_seq r.
   Proof.
     unfold open_rw. cbv zeta.
     destruct (MemDB.mdb_new mp) as [d0| |]; cbn [of_mres obind]; try discriminate.
@@ -268,19 +290,19 @@ Section SeqMono.
     { eapply ext_trans; [exact E1|]. eapply ext_trans; [exact X2|].
       eapply ext_trans; [apply (ext_same st2 st3); reflexivity|].
       eapply ext_trans; [exact E4|]. eapply ext_trans; [exact X5|apply remove_all_ext]. }
-    destruct X as (l & K & S). unfold st0 in K, S. cbn [r_kept r_seq app] in K, S.
-    intros Hn. rewrite K in Hn. exact (S Hn).
+    destruct X as (l & K & Nl & S). unfold st0 in K, S. cbn [r_kept r_seq app] in K, S.
+    rewrite K. split; [exact Nl|exact S].
   Qed.
 
   Theorem open_ro_seq o hts cs r :
     open_ro jcrc jp rp kp bhl mp tp tcrc compress snappy fgen blockSize ri c o hts cs = OOk r ->
-    nowrap (os_kept r) -> s_seq (c_sess cs) <= os_seq r.
+    nowrap (os_kept r) /\ s_seq (c_sess cs) <= os_seq r.
   Proof.
     unfold open_ro. cbv zeta.
     destruct (MemDB.mdb_new mp) as [d0| |]; cbn [of_mres obind]; try discriminate.
     destruct (loop_ro o _ _) as [st|e] eqn:E1; cbn [obind]; [|discriminate].
-    apply loop_ro_ext in E1. destruct E1 as (l & K & S). cbn [r_kept r_seq app] in K, S.
-    intros E. injection E as <-. cbn [os_kept os_seq]. intros Hn. rewrite K in Hn. exact (S Hn).
+    apply loop_ro_ext in E1. destruct E1 as (l & K & Nl & S). cbn [r_kept r_seq app] in K, S.
+    intros E. injection E as <-. cbn [os_kept os_seq]. rewrite K. split; [exact Nl|exact S].
   Qed.
 End SeqMono.
 
@@ -309,6 +331,7 @@ Section Whole.
   Variable jp : Journal.jparams.
   Variable rp : SR.rparams.
   Variable kp : kparams.
+  Hypothesis kpok : kparams_ok kp.
   Variable bhl : N.
   Variable mp : MemDB.mparams.
   Variable tp : tparams.
@@ -414,7 +437,6 @@ Section Whole.
   Theorem recover_seq_above_all o strict hts img r :
     NoDup (map fst (si_files img)) ->
     recover_bytes jcrc jp rp kp bhl mp tp tcrc compress decompress fname ufc verify wo fgen c o strict hts img = OOk r ->
-    nowrap (os_kept (rr_state r)) ->
     map ts_num (rr_stats r) = table_files (si_files img) /\
     rr_maxseq r <= os_seq (rr_state r) /\
     forall s, In s (rr_stats r) ->
@@ -435,11 +457,11 @@ Section Whole.
     unfold st0 in Kss. cbn [rb_stats app] in Kss.
     set (opn := if oo_ro o then _ else _).
     destruct opn as [s|e] eqn:Eo; cbn [obind]; [|discriminate].
-    intros E. injection E as <-. cbn [rr_stats rr_maxseq rr_state]. intros Hn.
+    intros E. injection E as <-. cbn [rr_stats rr_maxseq rr_state].
     assert (Hseq : rb_maxseq st <= os_seq s).
     { rewrite <- E2. unfold opn in Eo. destruct (oo_ro o).
-      - eapply open_ro_seq; [exact Eo|exact Hn].
-      - eapply open_rw_seq; [exact Eo|exact Hn]. }
+      - eapply proj2. eapply open_ro_seq; [exact kpok|exact Eo].
+      - eapply proj2. eapply open_rw_seq; [exact kpok|exact Eo]. }
     split; [rewrite Kss; exact Knums|]. split; [exact Hseq|].
     intros x Hx. rewrite Kss in Hx. rewrite Forall_forall in Kall. destruct (Kall x Hx) as (all & A & B & C).
     exists all. split; [exact A|]. split; [exact B|]. intros Hk. specialize (C Hk). split; [exact C|].
